@@ -394,7 +394,7 @@ def _harness_run(sd, binp, chunks, tag, settle_ms=60):
         if not os.path.lexists(lnk):
             os.symlink(binp, lnk)
         procs.append(([lnk, "-test.run", "^TestVerifC09$", "-test.timeout", "2400s"], None, w, env, tr))
-    res = vf.run_many([p[:4] for p in procs], nproc=4, timeout=2500)
+    res = vf.run_many([p[:4] for p in procs], nproc=6, timeout=2500)
     traces = []
     for (rc, so, se), p in zip(res, procs):
         if rc is None:
@@ -525,7 +525,7 @@ def run():
                 k = "%s/%s" % (s, "block" if u["b"] else u["x"])
                 site_count[k] = site_count.get(k, 0) + 1
             jobs.append({"path": "run", "file": p, "key": c["key"], "reps": reps, "hasexp": True, "expect": _lst(c["expect"])})
-        kreps = 200 if thorough else 25
+        kreps = 200 if thorough else 15
         kjobs = []
         for name, src in sorted(KEYPROGS.items()):
             p = os.path.join(pd, "key-%s.ego" % name)
